@@ -27,6 +27,30 @@ func FullPaths(d *m.Design, s *m.Service, meth *m.Method) []string {
 	return out
 }
 
+// FullRoute is one mounted (verb, pattern) pair of a method.
+type FullRoute struct {
+	Verb, Pattern string
+	Route         int // index into meth.HTTP.Routes
+}
+
+// AllFullRoutes returns every (verb, pattern) a method is mounted under: each
+// route under each base path of the service (an absolute route ignores them).
+func AllFullRoutes(d *m.Design, s *m.Service, meth *m.Method) []FullRoute {
+	var out []FullRoute
+	seen := map[string]bool{}
+	for i, r := range meth.HTTP.Routes {
+		for _, bp := range s.BasePaths() {
+			p := JoinPath(d.API.BasePath, bp, r.Path)
+			if seen[r.Verb+" "+p] {
+				continue
+			}
+			seen[r.Verb+" "+p] = true
+			out = append(out, FullRoute{Verb: r.Verb, Pattern: p, Route: i})
+		}
+	}
+	return out
+}
+
 // JoinPath concatenates base paths and a route path.
 func JoinPath(parts ...string) string {
 	if n := len(parts); n > 0 && strings.HasPrefix(parts[n-1], "//") {
